@@ -1,6 +1,7 @@
 (* Run.v — the operations of the correspondence check: one [run_case] entry point. *)
 From DltV.Model Require Import Bytes RustInt Utf8 Nom Dlt Parse Wire.
 From DltV.Spec Require Import WellFormed.
+From DltV.Model Require Import Stats.
 Open Scope N_scope.
 
 Definition w_cres (x : option (list argument)) : list wtok :=
@@ -160,6 +161,50 @@ Definition op_streamj (ts : list wtok) : list wtok :=
       let '(res, r) := parse_all (S (length buf)) buf None true in
       WN 0 :: w_list w_parsed res ++ [WN (len r)]).
 
+
+(* 32 STATS: parts of a message stream; visits, statistics of the whole, merged statistics of the parts *)
+Definition w_stat (s : statistic) : list wtok :=
+  w_opt w_log_level (st_level s) ++ w_opt w_bytes (st_ecu s)
+  ++ w_opt (fun p => [WB (fst p); WB (snd p)]) (st_ext s) ++ w_bool (st_verbose s).
+Definition w_ld (d : level_dist) : list wtok :=
+  [WN (non_log d); WN (log_fatal d); WN (log_error d); WN (log_warning d);
+   WN (log_info d); WN (log_debug d); WN (log_verbose d); WN (log_invalid d)].
+Fixpoint insert_entry (x : list byte * level_dist) (l : idmap) : idmap :=
+  match l with
+  | [] => [x]
+  | y :: r => if bytes_leb (fst x) (fst y) then x :: l else y :: insert_entry x r
+  end.
+Definition sort_idmap (m : idmap) : idmap := fold_right insert_entry [] m.
+Definition w_idmap (m : idmap) : list wtok :=
+  w_list (fun e => WB (fst e) :: w_ld (snd e)) (sort_idmap m).
+Definition w_si (si : stat_info) : list wtok :=
+  w_idmap (si_app si) ++ w_idmap (si_ctx si) ++ w_idmap (si_ecu si) ++ w_bool (si_non_verbose si).
+Fixpoint merge_balanced (fuel : nat) (l : list stat_info) : stat_info :=
+  match fuel with
+  | O => stat_info_new
+  | S fuel' =>
+    match l with
+    | [] => stat_info_new
+    | [x] => x
+    | _ => let k := Nat.div2 (length l) in
+           merge (merge_balanced fuel' (firstn k l)) (merge_balanced fuel' (skipn k l))
+    end
+  end.
+Definition merge_mode (mode : N) (l : list stat_info) : stat_info :=
+  match mode with
+  | 0 => fold_left merge l stat_info_new
+  | 1 => fold_left merge (rev l) stat_info_new
+  | 2 => merge_balanced (S (length l)) l
+  | _ => fold_right merge stat_info_new l
+  end.
+Definition op_stats (ts : list wtok) : list wtok :=
+  run_rd (rlet mode := r_n in rlet parts := r_list (r_list r_msg) in rret (mode, parts)) ts
+    (fun '(mode, parts) =>
+       let all := concat parts in
+       w_list w_stat (map statistic_of_message all)
+       ++ w_si (collect_messages all)
+       ++ w_si (merge_mode mode (map collect_messages parts))).
+
 Definition run_case (op : N) (ts : list wtok) : list wtok :=
   match op with
   | 1 => run_rd r_n ts (fun ms => w_chk w_ts (from_ms ms))
@@ -196,5 +241,6 @@ Definition run_case (op : N) (ts : list wtok) : list wtok :=
   | 27 => run_rd r_filter ts (fun f => w_processed (process_filter f))
   | 28 => op_stable ts
   | 29 => op_streamj ts
+  | 32 => op_stats ts
   | _ => [WN 998]
   end.
